@@ -151,7 +151,16 @@ def gen_sizer_case(rng, kind):
         param = rng.choice([1.0, 1.5, 2.0, 0.5, 5.0, 0.01, rng.uniform(0.1, 4)])
         if rng.random() < 0.08:
             param = rng.choice([0.0, -1.0, -1e-12, 1e-12, -0.0])
-        if items and rng.random() < 0.25:
+        if items and fee[0] == 'Z' and all(i[2] for i in items) and rng.random() < 0.12:
+            # one asset whose leveraged allocation lies a fraction of a currency unit from a whole number of shares, the equity
+            # itself not being a whole number (the equity is used as it is, to the last digit)
+            i0 = items[0]
+            del items[1:]
+            i0[1] = rng.choice([1.0, -1.0])
+            i0[2] = round(rng.uniform(1, 50), 2)
+            param = rng.choice([1.0, 2.0, 4.0])
+            equity = (rng.randint(100, 50000) * i0[2] + rng.choice([0.05, 0.3, 0.45, -0.05, -0.3, 0.7])) / param
+        elif items and rng.random() < 0.25:
             # integral dollar amounts
             equity = float(rng.randint(1, 10 ** 6))
             for i in items:
